@@ -901,6 +901,64 @@ async def _drive(coro):
         pass
 
 
+def run_dcclose_probe(variant):
+    """channel.close() immediately followed by close() of the connection, on an open channel of a real connected
+    pair (variant 0: the side that created the channel, 1: the side that received it).  Returns the readyState of
+    every channel of both sides after both connections are closed, or a string describing what went wrong."""
+    import asyncio as aio
+    logging.disable(logging.CRITICAL)
+
+    async def go():
+        from aiortc import RTCPeerConnection
+        a, b = RTCPeerConnection(), RTCPeerConnection()
+        got = []
+        b.on("datachannel", lambda ch: got.append(ch))
+        chat = a.createDataChannel("chat")
+        opened = aio.Event()
+        chat.on("open", lambda: opened.set())
+        try:
+            await a.setLocalDescription(await a.createOffer())
+            await b.setRemoteDescription(a.localDescription)
+            await b.setLocalDescription(await b.createAnswer())
+            await a.setRemoteDescription(b.localDescription)
+            await aio.wait_for(opened.wait(), 15)
+            for _ in range(200):
+                if got and got[0].readyState == "open":
+                    break
+                await aio.sleep(0.01)
+            if not got:
+                return "no datachannel event on the answerer"
+            first, second = (a, b) if variant == 0 else (b, a)
+            (chat if variant == 0 else got[0]).close()
+            await aio.wait_for(first.close(), CLOSE_TIMEOUT)
+            await aio.wait_for(second.close(), CLOSE_TIMEOUT)
+            return [chat.readyState] + [ch.readyState for ch in got]
+        finally:
+            for pc in (a, b):
+                try:
+                    await aio.wait_for(pc.close(), 5)
+                except BaseException:
+                    pass
+
+    loop = asyncio.new_event_loop()
+    loop.set_exception_handler(lambda l, ctx: None)
+    asyncio.set_event_loop(loop)
+    try:
+        return loop.run_until_complete(go())
+    except BaseException as exc:       # noqa
+        return "probe failed: " + repr(exc)[:120]
+    finally:
+        try:
+            pend = [t for t in asyncio.all_tasks(loop) if not t.done()]
+            for t in pend:
+                t.cancel()
+            if pend:
+                loop.run_until_complete(asyncio.wait(pend, timeout=1.0))
+        except BaseException:
+            pass
+        loop.close()
+
+
 def run_real(case):
     """One real run in a fresh event loop. Returns the observation dict."""
     global RUN
@@ -1022,6 +1080,8 @@ class C19(Check):
         return [self.gen_case(rng, 100000 + i) for i in range(min(n, 120))]
 
     def shrink_candidates(self, case):
+        if case and case[0] == "dcclose-probe":
+            return
         # smaller configurations first, then simpler trigger
         for idx, lo in ((1, 0), (2, 0), (3, 0), (4, 0), (5, 0), (9, 0), (10, 0)):
             if case[idx] > lo:
@@ -1031,6 +1091,8 @@ class C19(Check):
                     yield c
 
     def describe_case(self, case):
+        if case and case[0] == "dcclose-probe":
+            return {"case": case, "probe": "channel.close() then close() on the " + ["offerer", "answerer"][case[1]]}
         policy, na, nv, ba, bv, dc, point, k, who, twice, fault = case[:11]
         return {"case": case, "bundlePolicy": ["balanced", "max-compat", "max-bundle"][policy],
                 "offerer_tracks": {"audio": na, "video": nv}, "answerer_tracks": {"audio": ba, "video": bv},
@@ -1057,7 +1119,23 @@ class C19(Check):
         return self.impl_out(res)
 
     def impl_run(self, case):
+        if case and case[0] == "dcclose-probe":
+            return run_dcclose_probe(case[1])
         return self.safe_impl(case)
+
+    def extra_checks(self, ctx):
+        """`every data channel is closed` when the application closes a channel and then, without waiting for the stream
+        reset to be acknowledged, the connection: a real connected pair, both variants"""
+        out = []
+        self.dcclose_probe = []
+        for variant in (0, 1):
+            res = run_dcclose_probe(variant)
+            self.dcclose_probe.append(res)
+            if isinstance(res, list) and any(st != "closed" for st in res):
+                out.append(("channel-not-closed", f"channel.close() then close() on the {['offerer', 'answerer'][variant]}: "
+                                                  f"data channel states after both connections closed: {res}",
+                            ["dcclose-probe", variant]))
+        return out
 
     @staticmethod
     def impl_out(res):
@@ -1099,6 +1177,11 @@ class C19(Check):
 
     # ------------------------------------------------------------ oracle: the property on the real objects
     def oracle(self, case, impl_out):
+        if case and case[0] == "dcclose-probe":
+            if isinstance(impl_out, list) and any(st != "closed" for st in impl_out):
+                return ("channel-not-closed", f"channel.close() then close(): data channel states after both connections "
+                                              f"closed: {impl_out}")
+            return None
         if not impl_out or len(impl_out) < 2:
             return None
         status, attempts, tasks_left, threads_left, obs = impl_out[1]
@@ -1145,7 +1228,8 @@ class C19(Check):
         d = {"runs": 0, "retried": 0, "late_trigger": 0, "replay_skipped_pcs": 0, "events": 0,
              "close_ms_max": 0, "by_point": {}, "by_side": {}, "by_policy": {}, "twice": 0, "fault": {},
              "exact_point": 0, "kth_callback": 0, "at_lifecycle_event": 0, "nego_call_overtaken": 0, "cancels": 0, "ice_shutdowns": 0,
-             "tasks_begun": 0, "pumps_ended": 0, "closes_with_task_not_yet_started": 0, "event_kinds": {}}
+             "tasks_begun": 0, "pumps_ended": 0, "closes_with_task_not_yet_started": 0, "event_kinds": {},
+             "channel_close_then_close_probe": getattr(self, "dcclose_probe", None)}
         for c in cases:
             res = self.stash.get(json.dumps(c))
             if not res:
